@@ -315,6 +315,7 @@ func checkC14(c *Ctx) {
 			}
 		}
 	}
+	ruleDispatch(c, dv, "R14.5", true, false) // every press and release reaches the held-key bookkeeping
 	c.MinCount("R14.1", 3)
 	c.MinCount("R14.2", 5)
 	c.MinCount("R14.3", 1)
